@@ -163,8 +163,9 @@ impl<'a> Run<'a> {
             x.done_this_call.clear();
             x.up_polled_in_call = false;
             x.up_last_pending_in_call = false;
-            for c in x.children.iter_mut() {
-                c.polled_in_call = false;
+            let pl = std::mem::take(&mut x.polled_list);
+            for c in pl {
+                x.children[c as usize].polled_in_call = false;
             }
             if x.last_waker != usize::MAX && x.last_waker != k {
                 x.labels |= lb::WAKER_CHANGED;
@@ -324,10 +325,20 @@ impl<'a> Run<'a> {
         let front = if self.case.subj.is_adapter() {
             // upstream order = creation order of the futures = id order
             w(|x| {
-                x.children
-                    .iter()
-                    .position(|ch| ch.role == Role::Fut && ch.accepted && !ch.yielded)
-                    .map(|i| i as Cid)
+                let mut k = x.scan_from;
+                while k < x.children.len() {
+                    let ch = &x.children[k];
+                    if ch.role == Role::Fut && ch.accepted && !ch.yielded {
+                        break;
+                    }
+                    k += 1;
+                }
+                x.scan_from = k;
+                if k < x.children.len() {
+                    Some(k as Cid)
+                } else {
+                    None
+                }
             })
         } else {
             self.queue.front().copied()
@@ -346,6 +357,9 @@ impl<'a> Run<'a> {
             }
             if yl {
                 x.violate(pr | p(2), "C02/duplicate-item", format!("{what}: child {c} yielded twice"));
+            }
+            if !x.children[c as usize].yielded {
+                x.parked -= 1;
             }
             x.children[c as usize].yielded = true;
             x.delivered += 1;
@@ -748,33 +762,27 @@ impl<'a> Run<'a> {
                 );
             }
             // C13 A: bounded delay of a woken child
-            // ordered subjects can spend a poll on a parked output without touching the ready queue
-            let n = (x.max_cap.max(x.held_count()) + x.max_owed) as u64;
+                        let n = x.max_cap.max(x.held_count()) as u64;
             let b = (g + 1) * (n + 2) + 4;
-            let seq = x.poll_seq;
+            if pending || x.polled_list.iter().any(|&c| x.children[c as usize].role != Role::Upstream) {
+                x.eff_polls += 1;
+            }
+            let seq = x.eff_polls;
             let mut late = None;
-            let mut any_polled = false;
+            let any_polled = x.polled_list.iter().any(|&c| x.children[c as usize].role != Role::Upstream);
             let mut unpolled_held = false;
             let mut waited = false;
-            let mut held = 0;
-            for (i, c) in x.children.iter().enumerate() {
-                if c.role == Role::Upstream {
-                    continue;
-                }
-                if c.polled_in_call {
-                    any_polled = true;
-                }
-                if c.held() {
-                    held += 1;
-                    if !c.polled_in_call {
-                        unpolled_held = true;
-                        if c.dirty {
-                            waited = true;
-                        }
+            let held = x.held.len();
+            for &i in &x.held {
+                let c = &x.children[i as usize];
+                if !c.polled_in_call {
+                    unpolled_held = true;
+                    if c.dirty {
+                        waited = true;
                     }
-                    if c.dirty && seq - c.dirty_since > b && late.is_none() {
-                        late = Some((i, seq - c.dirty_since));
-                    }
+                }
+                if c.dirty && seq - c.dirty_since > b && late.is_none() {
+                    late = Some((i as usize, seq - c.dirty_since));
                 }
             }
             if any_polled && unpolled_held {
@@ -790,7 +798,7 @@ impl<'a> Run<'a> {
                 x.violate(
                     p(13),
                     "C13/starved",
-                    format!("child {i} was pushed/woken {d} collection polls ago and still has not been polled (bound {b}; {g} groups, capacity {n})"),
+                    format!("child {i} was pushed/woken {d} child-polling collection polls ago and still has not been polled (bound {b}; {g} groups, capacity {n})"),
                 );
             }
             // C16 after every poll of an ordered adapter
@@ -805,7 +813,7 @@ impl<'a> Run<'a> {
                     );
                 }
                 // head-of-line stall: something finished is parked while the oldest is still running
-                let parked = x.children.iter().any(|c| c.role == Role::Fut && c.life == Life::Done && !c.yielded);
+                let parked = x.parked > 0;
                 if parked && !x.up_ended {
                     x.labels |= lb::HEAD_STALL;
                 }
@@ -817,11 +825,7 @@ impl<'a> Run<'a> {
             }
         });
         if s.is_ordered() {
-            let parked = w(|x| {
-                x.children
-                    .iter()
-                    .any(|c| c.role == Role::Fut && c.accepted && c.life == Life::Done && !c.yielded)
-            });
+            let parked = w(|x| x.parked > 0);
             if parked {
                 w(|x| x.labels |= lb::PARKED);
             }
